@@ -11,7 +11,7 @@ HOOKS = {
 ENGINES = [
     {"name": "tlc", "path": "/verif/lib/vlib/tlc.py", "kind_free_text": "TLC 1.8 explicit-state model checker over spec/*.tla",
      "serves_properties": []},
-    {"name": "harness-agent", "path": "/verif/harness/agent", "serves_properties": ["C01", "C02", "C03", "C04", "C05", "C07", "C10", "C11", "C12", "C13", "C14", "C15", "C16", "C18", "C19"],
+    {"name": "harness-agent", "path": "/verif/harness/agent", "serves_properties": ["C01", "C02", "C03", "C04", "C05", "C07", "C08", "C09", "C10", "C11", "C12", "C13", "C14", "C15", "C16", "C18", "C19"],
      "kind_free_text": "cargo crate compiling /repo/proxy_agent/src through symlinks with the verif cfg; drivers: "
                        "function tables, proxy rig (real ProxyServer + mock hosts in a netns), disk, ..."},
     {"name": "harness-ebpf", "path": "/verif/harness/ebpf", "serves_properties": ["C06"],
@@ -28,6 +28,18 @@ NOTES = ("Every check: bin/check <id> --tier quick|thorough. TLA+ specs in spec/
 NOT_APPLICABLE = {}
 
 CHECKS = {
+    "C08": {
+        "text": "KeyKeeper.tla models loop_poll one host call / file-system call per action with Crash enabled in every control state (volatile state lost, disk and host kept); TLC checks LatchedIsRecoverable, NoCorruptFinalName, AttestOnlyAfterStoreAndReadBack, RestartUsesLocal, RenameOnlyComplete over 4 scenarios x <=2 crashes x <=2 host faults (2.1M states) and liveness under fairness. The real key keeper runs as a child process on a current-thread runtime under strace; for every scenario x host-fault plan (fresh latch, restart with key, rotation named/unnamed, unreadable local key; status/acquire/attest faults incl. 'host latched but reply lost') the child is killed before each system call on the key directory, a key file or the host socket, restarted on the same directory and host, and must authenticate with the latched key without a new key request; the scripted host (separate process) verifies MACs with Python hmac; both strace logs of every case plus the real directory and latch at exit are validated by TLC against KeyKeeperTraceFs.tla.",
+        "note": "Crash = SIGKILL of the process (not power loss); kill points come from a baseline run per case (timer wake-ups shift a few); quick samples 1 in 6 of the tmp-file writes, thorough kills before every syscall.",
+        "technique": "TLA+ spec with crash action + TLC model checking; exhaustive kill-point enumeration on the real process (strace inject); impl->spec trace validation of syscall logs",
+        "design_ref": "DESIGN.md §3 KeyKeeper.tla (C08)",
+    },
+    "C09": {
+        "text": "KeyKeeper.tla (protocol versions 1.0/2.0, enable/disable, rule documents per endpoint with ids incl. empty and unchanged ids, rotation, per-step host faults, restarts) is model-checked for Converged, FailedPollChangesNothing, NoKeyWhenDisabled (5M states) and liveness; the old rule-id-keyed design must violate Converged (anti-vacuity). Scripted and seeded histories are executed by TLC (expected state per poll) and in lock-step on the real KeyKeeper::poll_secure_channel_status against a scripted host that withholds every status reply (arrival of poll n+1 proves poll n finished), the projection being read through the public getters, the key directory and the H3 policy events; every run is decided by TLC against KeyKeeperTrace.tla.",
+        "note": "Hook H3 only (trace event at the entry of the redirect-policy updates, which otherwise need a loaded BPF object). 'Signs nothing' when disabled is checked as 'holds no key'.",
+        "technique": "TLA+ spec + TLC model checking (safety + liveness); lock-step spec->impl replay with a reply-withholding host; impl->spec trace validation",
+        "design_ref": "DESIGN.md §3 KeyKeeper.tla (C09)",
+    },
     "C12": {
         "text": "KeySecret.tla is a taint model of every flow of a value obtained from the host's key endpoint (key file, MACs, key-keeper status message -> logs/events/status.json/provision answers, signing errors -> connection log) with the key-directory steps; TLC checks NoLeak and AclBeforeFirstKeyFile for the design with withheld error texts and exhibits the leaking histories of the design that quotes the key. The real key keeper, proxy, status task, event logger and event reader run against a scripted mock WireServer issuing CANARY secrets through every history class of the model (latch, rotation, non-hex key, undeserialisable key reply, local fetch of a bad key, host errors, disable) while clients send proxied requests and /provision queries; every output (log, event, status, tag and rule-dump files, stdout/stderr, every client response, every host request) is scanned for every rendering of every canary and the key-directory system calls are read from strace; TLC validates the sink and fs events against KeySecretTrace.tla.",
         "note": "Absence is established for the histories of one scripted run covering the model's classes and for the sinks enumerated; /dev/console cannot be captured here.",
